@@ -3,6 +3,7 @@
 import copy
 import decimal
 import io
+import os
 import itertools
 
 from ..harness import UnitResult, Violation, short, note_case
@@ -78,6 +79,7 @@ def make_ctx(fa):
     c["dec12"] = fa.parse_schema(copy.deepcopy(DEC12))
     c["fixdec"] = fa.parse_schema(copy.deepcopy(FIXDEC))
     c["bdec"] = fa.parse_schema({"type": "bytes", "logicalType": "decimal", "precision": 12, "scale": 4})
+    c["ts_naive"] = fa.parse_schema(copy.deepcopy(TS_NAIVE))
     return c
 
 
@@ -269,6 +271,39 @@ def op_bytesdec_write_small(fa, c, k):
     return out
 
 
+def op_cont_write_default_marker(fa, c, k):
+    # no sync_marker argument: the writer picks its own; the result is reported without it
+    fo = io.BytesIO()
+    fa.writer(fo, c["small"], [SDATUM, SDATUM])
+    data = fo.getvalue()
+    return (len(data), list(fa.reader(io.BytesIO(data))))
+
+
+TS_NAIVE = {"type": "long", "logicalType": "timestamp-micros"}
+
+
+def op_ts_naive_winter(fa, c, k):
+    import datetime
+
+    out = []
+    for d in (datetime.datetime(2023, 1, 15, 12, 0, 0, 5), datetime.datetime(2023, 1, 15, 12, 30), datetime.datetime(2022, 12, 1, 12, 1)):
+        fo = io.BytesIO()
+        fa.schemaless_writer(fo, c["ts_naive"], d)
+        out.append(fo.getvalue())
+    return out
+
+
+def op_ts_naive_summer(fa, c, k):
+    import datetime
+
+    out = []
+    for d in (datetime.datetime(2023, 7, 15, 12, 0, 0, 5), datetime.datetime(2023, 7, 15, 12, 45), datetime.datetime(2023, 6, 1, 12, 2)):
+        fo = io.BytesIO()
+        fa.schemaless_writer(fo, c["ts_naive"], d)
+        out.append(fo.getvalue())
+    return out
+
+
 OPS = [
     ("dec3_read", op_dec3_read), ("dec12_read", op_dec12_read), ("fixdec_write", op_fixdec_write),
     ("json_read_defaults", op_json_read_defaults), ("json_write", op_json_write), ("parse_raw", op_parse_raw),
@@ -279,6 +314,7 @@ OPS = [
     ("fingerprint", op_fingerprint),
     ("cont_write_null", op_cont_write_null), ("cont_write_bz", op_cont_write_bz), ("legacy_write", op_legacy_write), ("legacy_validate", op_legacy_validate),
     ("sl_read_deep", op_sl_read_deep), ("bytesdec_write", op_bytesdec_write), ("bytesdec_write_small", op_bytesdec_write_small),
+    ("cont_write_default_marker", op_cont_write_default_marker), ("ts_naive_winter", op_ts_naive_winter), ("ts_naive_summer", op_ts_naive_summer),
 ]
 CHUNKS = 16
 OPCODE_FILES = ("_logical_readers_py.py", "_logical_writers_py.py", "json_decoder.py", "parser.py", "binary_encoder.py")
@@ -286,11 +322,11 @@ OPCODE_FILES = ("_logical_readers_py.py", "_logical_writers_py.py", "json_decode
 
 def units(tier):
     idx = range(len(OPS))
-    special = set(range(14, 30))
+    special = set(range(14, 33))
     us = [("pair", a, b) for a, b in itertools.combinations_with_replacement(idx, 2)
           if (tier == "thorough" and not ({a, b} & {21, 22})) or not ({a, b} & special)
           or (a, b) in ((14, 15), (16, 17), (14, 17), (18, 18), (18, 19), (19, 19), (20, 21), (20, 20), (22, 22), (5, 22),
-                        (10, 23), (23, 24), (10, 24), (25, 25), (25, 26), (26, 26), (8, 25), (27, 27), (13, 27), (28, 28), (2, 28), (28, 29))]
+                        (10, 23), (23, 24), (10, 24), (25, 25), (25, 26), (26, 26), (8, 25), (27, 27), (13, 27), (28, 28), (2, 28), (28, 29), (30, 30), (10, 30), (31, 32), (31, 31))]
     us = [(u, c) for u in us for c in range(CHUNKS)]
     # cold start: every execution begins with a freshly imported library (first-call initialisation races);
     # deviations at the 1st, 2nd and last visit of every source line of the default execution
@@ -320,7 +356,29 @@ def solo(fa, opi):
         return ("exc", type(e).__name__, str(e)[:300])
 
 
+DST_OPS = {31, 32}
+DST_ZONE = "CET-1CEST,M3.5.0,M10.5.0/3"  # POSIX rule string: central European time, no zone database needed
+
+
 def run_unit(unit_chunk, tier):
+    """Operations on naive timestamps are explored with the process in a zone that has daylight saving time (their
+    conversion uses the local zone); the zone is set for the whole unit, solo runs included, and restored afterwards."""
+    import time as _time
+
+    unit = unit_chunk[0]
+    dst = bool(set(unit[1:]) & DST_OPS)
+    if dst:
+        os.environ["TZ"] = DST_ZONE
+        _time.tzset()
+    try:
+        return _run_unit(unit_chunk, tier)
+    finally:
+        if dst:
+            os.environ["TZ"] = "UTC"
+            _time.tzset()
+
+
+def _run_unit(unit_chunk, tier):
     import fastavro as fa
 
     res = UnitResult()
